@@ -20,35 +20,57 @@
 (*     cvxpy problem (built), prvs_alpha (alpha), normalization_factor     *)
 (*     (normF); branches init / solve / reuse, then clip; Reset.           *)
 (* TLC checks, for every history over Syms \cup {"reset"} of length        *)
-(* <= MaxLen and every k in 1..MaxK, that the implementation layer agrees  *)
-(* with the property layer, and runs a second copy, constructed fresh at   *)
-(* the last reset point, in lock-step (reset == new).                      *)
+(* <= MaxLen, every k in 1..MaxK and every optim_niter in NIters, that the *)
+(* implementation layer agrees with the property layer, and runs a second  *)
+(* copy, constructed fresh at the last reset point, in lock-step           *)
+(* (reset == new).                                                         *)
+(*                                                                         *)
+(* Configuration space.  optim_niter is a constructor parameter like       *)
+(* update_weights_every: it is part of the state (never changed by a call  *)
+(* or a reset), every Solve term carries it, and the interpretation of a   *)
+(* term uses fresh instances constructed with THE SAME optim_niter (with a *)
+(* small budget the inner fixed-point loop ends by exhaustion, not by      *)
+(* convergence, so Solve(n, J, w) genuinely depends on n).  The remaining  *)
+(* dimensions do not change the transitions, only the interpretation of    *)
+(* the symbols and of clip: they are the presentation space Presentations  *)
+(* (rows, max_norm binding or not, alphabet kind) that the replay rotates  *)
+(* through; it is exported once (CONF).                                    *)
+(*                                                                         *)
+(* Period statement ("reused unchanged in between"): the weights in force  *)
+(* at a reuse call are THE weights of the recompute call that opened its   *)
+(* period (PropRef) - stated on terms here (PeriodWeights) and observed on *)
+(* the real instance by comparing the weight vectors of the two calls.     *)
 (***************************************************************************)
 EXTENDS Integers, Sequences, FiniteSets, TLC, Json
 
 CONSTANTS MaxLen,     \* histories of at most MaxLen events
           MaxK,       \* update_weights_every in 1..MaxK
-          Syms        \* alphabet of matrix identifiers (strings in MC, integers in traces)
+          Syms,       \* alphabet of matrix identifiers (strings in MC, integers in traces)
+          NIters      \* optim_niter in NIters
 
 VARIABLES k,          \* update_weights_every
+          niter,      \* optim_niter (constructor parameter; budget of the inner loop of a Solve)
           hist,       \* the history so far: sequence over Syms \cup {"reset"}
           inst,       \* the instance under test   [step, built, alpha, normF]
           fresh,      \* a copy constructed at the last reset point (at the start if none)
           calls       \* per call event of hist: what the implementation layer did
 
-vars == <<k, hist, inst, fresh, calls>>
+vars == <<k, niter, hist, inst, fresh, calls>>
 
 -----------------------------------------------------------------------------
 (* Terms                                                                   *)
 Ones          == <<"ones">>
-SolveT(J, w)  == <<"solve", J, w>>
+SolveT(n, J, w) == <<"solve", n, J, w>>  \* n = optim_niter of the instance that solves
 NormT(J)      == <<"norm", J>>
 ClipT(a, J)   == <<"clip", a, J>>        \* a if |a.J| <= max_norm else a * max_norm / |a.J|; then . J
 
 \* a weights term is a linear chain; its flat form lists the matrices, innermost first:
 \* Chain(Solve(B, Solve(A, ones))) = <<A, B>>
 RECURSIVE Chain(_)
-Chain(t) == IF t[1] = "ones" THEN <<>> ELSE Append(Chain(t[3]), t[2])
+Chain(t) == IF t[1] = "ones" THEN <<>> ELSE Append(Chain(t[4]), t[3])
+\* every Solve of a term was made with budget n
+RECURSIVE AllNiter(_, _)
+AllNiter(t, n) == IF t[1] = "ones" THEN TRUE ELSE t[2] = n /\ AllNiter(t[4], n)
 
 -----------------------------------------------------------------------------
 (* Implementation layer: nash_mtl.py                                       *)
@@ -59,12 +81,12 @@ NewInst == [step |-> 0, built |-> FALSE, alpha |-> Ones, normF |-> "one"]
 Recomputes(st, kk) == (st % kk) = 0
 Branch(st, kk) == IF st = 0 THEN "init" ELSE IF Recomputes(st, kk) THEN "solve" ELSE "reuse"
 
-\* forward(J) on instance i with update_weights_every = kk
-CallInst(i, kk, J) ==
+\* forward(J) on instance i with update_weights_every = kk, optim_niter = n
+CallInst(i, kk, n, J) ==
     LET re == Recomputes(i.step, kk) IN
     [step  |-> i.step + 1,
      built |-> (i.built \/ i.step = 0),                 \* _init_optim_problem when step == 0
-     alpha |-> IF re THEN SolveT(J, i.alpha) ELSE i.alpha,
+     alpha |-> IF re THEN SolveT(n, J, i.alpha) ELSE i.alpha,
      normF |-> IF re THEN NormT(J) ELSE i.normF]
 
 \* the solve branch needs the cvxpy problem; this is the only way a call can fail in the model
@@ -80,6 +102,7 @@ Obs(i) == [step |-> i.step, alpha |-> i.alpha, normF |-> i.normF]
 OutTerm(i, J) == ClipT(i.alpha, J)          \* evaluated on the state AFTER the weights update
 
 Init == /\ k \in 1..MaxK
+        /\ niter \in NIters
         /\ hist = <<>>
         /\ inst = NewInst /\ fresh = NewInst
         /\ calls = <<>>
@@ -87,21 +110,26 @@ Init == /\ k \in 1..MaxK
 Call(J) == /\ Len(hist) < MaxLen
            /\ CallSucceeds(inst, k)
            /\ hist' = Append(hist, J)
-           /\ inst' = CallInst(inst, k, J)
-           /\ fresh' = CallInst(fresh, k, J)
+           /\ inst' = CallInst(inst, k, niter, J)
+           /\ fresh' = CallInst(fresh, k, niter, J)
            /\ calls' = Append(calls, [at |-> Len(hist) + 1, sym |-> J,
                                       branch |-> Branch(inst.step, k),
                                       recompute |-> Recomputes(inst.step, k),
+                                      \* the call that opened the period: this one if it recomputes,
+                                      \* else the one of the previous call (same segment: step > 0)
+                                      ref |-> IF Recomputes(inst.step, k) THEN Len(hist) + 1
+                                              ELSE calls[Len(calls)].ref,
+                                      weights |-> inst'.alpha,
                                       chain |-> Chain(inst'.alpha),
                                       out |-> OutTerm(inst', J),
                                       freshOut |-> OutTerm(fresh', J)])
-           /\ UNCHANGED k
+           /\ UNCHANGED <<k, niter>>
 
 Reset == /\ Len(hist) < MaxLen
          /\ hist' = Append(hist, "reset")
          /\ inst' = ResetInst(inst)
          /\ fresh' = NewInst                       \* a newly constructed instance, same parameters
-         /\ UNCHANGED <<k, calls>>
+         /\ UNCHANGED <<k, niter, calls>>
 
 Next == (\E J \in Syms : Call(J)) \/ Reset
 Spec == Init /\ [][Next]_vars
@@ -123,14 +151,18 @@ PropChain(h, kk, i) ==
         F[j \in r..i] == IF j = r THEN <<>>
                          ELSE IF ((j - r - 1) % kk) = 0 THEN Append(F[j - 1], h[j]) ELSE F[j - 1]
     IN  F[i]
-RECURSIVE TermOfChain(_)
-TermOfChain(c) == IF c = <<>> THEN Ones ELSE SolveT(c[Len(c)], TermOfChain(SubSeq(c, 1, Len(c) - 1)))
-PropOut(h, kk, i) == ClipT(TermOfChain(PropChain(h, kk, i)), h[i])
+RECURSIVE TermOfChain(_, _)
+TermOfChain(c, n) == IF c = <<>> THEN Ones ELSE SolveT(n, c[Len(c)], TermOfChain(SubSeq(c, 1, Len(c) - 1), n))
+PropOut(h, kk, n, i) == ClipT(TermOfChain(PropChain(h, kk, i), n), h[i])
+\* position of the recompute call that opened the period of the call at position i
+\* (no reset lies between the two: a segment contains no reset)
+PropRef(h, kk, i) == i - (Since(h, i) % kk)
 
 -----------------------------------------------------------------------------
 (* Checked by TLC on Spec                                                  *)
 
 TypeOK == /\ k \in 1..MaxK
+          /\ niter \in NIters
           /\ hist \in Seq(Syms \cup {"reset"}) /\ Len(hist) <= MaxLen
           /\ inst.step \in 0..MaxLen /\ inst.built \in BOOLEAN
           /\ Len(calls) = Cardinality({i \in DOMAIN hist : ~IsReset(hist[i])})
@@ -151,7 +183,8 @@ ResetRestoresInit == [][(hist' # hist /\ IsReset(hist'[Len(hist')])) => Obs(inst
 ScheduleOK == \A c \in DOMAIN calls :
                  /\ calls[c].recompute = PropRecompute(hist, k, calls[c].at)
                  /\ calls[c].chain = PropChain(hist, k, calls[c].at)
-                 /\ calls[c].out = PropOut(hist, k, calls[c].at)
+                 /\ calls[c].out = PropOut(hist, k, niter, calls[c].at)
+                 /\ AllNiter(calls[c].weights, niter)
                  /\ (calls[c].branch = "reuse") = ~calls[c].recompute
                  /\ (calls[c].branch = "init") = (Since(hist, calls[c].at) = 0)
 
@@ -160,14 +193,44 @@ ReuseKeepsWeights ==
     [][(hist' # hist /\ ~IsReset(hist'[Len(hist')]) /\ ~Recomputes(inst.step, k))
           => (inst'.alpha = inst.alpha /\ inst'.normF = inst.normF)]_vars
 
+\* ... and, stated on the calls of the history: the weights in force at a call are those of the
+\* recompute call that opened its period, which lies in the same segment, at most k - 1 calls back,
+\* with nothing but reuse calls in between
+CallAt(p) == CHOOSE c \in DOMAIN calls : calls[c].at = p
+PeriodWeights == \A c \in DOMAIN calls :
+                    /\ calls[c].ref = PropRef(hist, k, calls[c].at)
+                    /\ \E d \in DOMAIN calls :
+                          /\ calls[d].at = calls[c].ref /\ calls[d].recompute
+                          /\ calls[d].weights = calls[c].weights
+                          /\ c - d < k
+                          /\ \A e \in (d + 1)..c : ~calls[e].recompute
+                          /\ \A p \in calls[d].at..calls[c].at : ~IsReset(hist[p])
+
 \* the counter is the number of calls since the last reset
 StepIsSince == inst.step = Len(hist) - LastReset(hist, Len(hist) + 1)
 
 -----------------------------------------------------------------------------
 (* Scenario export: one line per complete history (every prefix is covered by it)          *)
-Scenario == [k |-> k, hist |-> hist,
+Scenario == [k |-> k, niter |-> niter, hist |-> hist,
              calls |-> [c \in DOMAIN calls |->
                           [at |-> calls[c].at, sym |-> calls[c].sym, branch |-> calls[c].branch,
-                           recompute |-> calls[c].recompute, chain |-> calls[c].chain]]]
-Export == (Len(hist) = MaxLen) => PrintT(<<"SCN", ToJson(Scenario)>>)
+                           recompute |-> calls[c].recompute, ref |-> calls[c].ref,
+                           chain |-> calls[c].chain]]]
+
+\* Presentation space of the replay (interpretation of the symbols and of clip; no effect on the
+\* transitions): number of rows, max_norm binding on most recomputations or on few, and the kind
+\* of matrix alphabet:
+\*   ordinary  well-conditioned (cond <= 3), power-of-two scale per symbol
+\*   small     the same times 2^-10 (the inner loop exhausts even the default budget)
+\*   gauss     gaussian rows (cond <= 20), power-of-two scale per symbol
+\*   struggle  gaussian matrices selected, by a seeded search on the code under test, so that the
+\*             solver returns no solution on some recomputation that is not the first of a segment
+Rows          == 2..5
+ClipModes     == {"binding", "loose"}
+AlphabetKinds == {"ordinary", "small", "gauss", "struggle"}
+Presentations == [m : Rows, clip : ClipModes, alphabet : AlphabetKinds]
+MinOf(S)      == CHOOSE x \in S : \A y \in S : x <= y
+
+Export == /\ (Len(hist) = MaxLen) => PrintT(<<"SCN", ToJson(Scenario)>>)
+          /\ (hist = <<>> /\ k = 1 /\ niter = MinOf(NIters)) => PrintT(<<"CONF", ToJson(Presentations)>>)
 =============================================================================
